@@ -219,3 +219,23 @@ CHECKS["C03"] = dict(
         technique="exhaustive enumeration of position/length/salt-character perturbations on the implementation with an inequality oracle",
         ref="DESIGN.md 3/C03"),
 )
+
+CHECKS["C16"] = dict(
+    level="exploration",
+    jobs=lambda tier: [dict(name="c16", variant="o2", sources=["e_c16.c"] + RT, libs=["-lgcrypt"], flags=["-DHAVE_CONFIG_H"])],
+    coverage=_cov("MD4, MD5, SHA-1, SHA-256, SHA-512, Streebog-256/512: every length 0..1100 x 4 byte fills one-shot against libgcrypt; for each "
+                  "length every two-way split (<= 320 quick, all thorough), byte-at-a-time, 7 strides, every three-way split (<= 72 quick / 160 "
+                  "thorough), source alignments 1..15; HMAC-SHA1 and HMAC-SHA256: key 0..200 x message 0..200 (+ streamed two-way splits); "
+                  "HMAC-Streebog-256: key 32..64 x message 0..300 x 2 fills; PBKDF2-HMAC-SHA256: 16 password x 16 salt boundary lengths x "
+                  "iterations {1,2,3,10,50} (all 1..50 thorough) x 10 dkLen; distinct_nontrivial = distinct reference digests"),
+    assumptions=["libgcrypt 1.10 is the reference implementation of the standards", "message contents: 4 fixed fills (position-distinct, all 0xff, aligned 0xff runs, 0xff with varying tail)"],
+    nonvacuous=lambda s, t: None if s.get("two_way_splits", 0) > 100000 and s.get("hmac_cases", 0) > 30000 and s.get("pbkdf2_cases", 0) > 5000 else "too few cases",
+    deadline=dict(quick=300, thorough=1700),
+    manifest=dict(
+        text="Bounded exhaustive exploration of the (length, chunking, alignment) space of every digest/MAC/KDF primitive through the library's "
+             "internal API, compared with an independent implementation (libgcrypt): every length over 8-17 block sizes, every split point, "
+             "every key length across the block boundary.",
+        note="libgcrypt is trusted as the standard; byte contents come from 4 fills chosen to drive carries (all-0xff blocks) as well as ordinary data.",
+        technique="exhaustive enumeration of length x split-point x alignment grids on the implementation against a reference implementation",
+        ref="DESIGN.md 3/C16"),
+)
